@@ -24,12 +24,12 @@ def codec_stage():
 PROPS = {
     'C01': dict(
         technique='ASan+UBSan run of encode->decode on generated batches with snapshot round-trip oracle and independent wire-level frame walker',
-        level_text='Exploration: every generated batch (boundary sweeps + seeded random, all payload kinds, all encode overloads, 25 <= max <= 65559) is encoded by the real Encoder and decoded by the real Decoder under ASan/UBSan; decoded packets are compared field by field with the originals and the frames are also parsed by an independent big-endian walker so that errors cancelling between encoder and decoder stay visible. Later additions: top of the legal ranges (max 65536..65559 x payload 65500..65535, big packet followed by a tiny one), frames holding 254..2049 tiny messages followed by a packet that does not fit, batches of 256..4117 packets, packets re-typed in place / edited in place through getPayload() / handed over as copies, decoders with a reassembly open on the very endpoint. Right level: the property is a universally quantified input/output relation of pure, microsecond-fast code, so dense boundary-directed sampling with an exact oracle is what runtime monitoring can give. Later families: one round trip in four copies the decoder between two frames and feeds the copy first (both owe the same packets); one history in four keeps the caller\'s packet objects across encode calls and edits them in place (header setters, Ethernet data through an earlier Payload reference).',
+        level_text='Exploration: every generated batch (boundary sweeps + seeded random, all payload kinds, all encode overloads, 25 <= max <= 65559) is encoded by the real Encoder and decoded by the real Decoder under ASan/UBSan; decoded packets are compared field by field with the originals and the frames are also parsed by an independent big-endian walker so that errors cancelling between encoder and decoder stay visible. Later additions: top of the legal ranges (max 65536..65559 x payload 65500..65535, big packet followed by a tiny one), frames holding 254..2049 tiny messages followed by a packet that does not fit, batches of 256..4117 packets, packets re-typed in place / edited in place through getPayload() / handed over as copies, decoders with a reassembly open on the very endpoint. Right level: the property is a universally quantified input/output relation of pure, microsecond-fast code, so dense boundary-directed sampling with an exact oracle is what runtime monitoring can give. Later families: one round trip in four copies the decoder between two frames and feeds the copy first (both owe the same packets); one history in four keeps the caller\'s packet objects across encode calls and edits them in place (header setters, Ethernet data through an earlier Payload reference). Round 7: frame sizes above 64 KiB up to 1 000 000 (C01 states no upper bound on the maximum): the largest payload followed by small ones, message headers straddling and starting exactly at frame offsets 65536 / 131072, three 65535-byte payloads in one frame, 4500 tiny packets; kept packet objects whose payload is replaced or re-typed through an earlier Payload reference between two encodes, with no Packet member called.',
         level_note='Trusted: wire model (harness/common/wire.h), snapshot of public getters, g++ sanitizers. Not covered: inputs outside the generated shapes; nothing is proved.',
         stages=[codec_stage()],
         rule=CODEC_RULE,
         assumptions=COMMON_ASSUME + ['the original packet is observed through its getters before encoding; decoded packets through snapshot.h'],
-        floors=dict(quick=dict(distinct_nontrivial=2000, segment_messages=10000, padded_frames=100, roundtrip_with_decoder_history=100),
+        floors=dict(quick=dict(frame_sizes_above_64KiB_cases=96, kept_packets_whose_payload_was_replaced_or_retyped_through_an_earlier_reference=500, distinct_nontrivial=2000, segment_messages=10000, padded_frames=100, roundtrip_with_decoder_history=100),
                     thorough=dict(distinct_nontrivial=20000, segment_messages=100000)),
     ),
     'C07': dict(
@@ -68,7 +68,7 @@ PROPS = {
     ),
     'C10': dict(
         technique='ASan+UBSan differential monitor: n-th encode call on a used encoder versus a fresh encoder for the same batch, after every call of generated histories',
-        level_text='Exploration: after every encode call of every generated history (mixed contexts, message types, batches ending with segmented packets, empty batches, config changes) (histories also contain calls that leave encode() by an exception - a failing input iterator, an unallocatable maximum - and continuations on copies of the encoder) the frames are compared with those of a fresh encoder with the same ids: same count, identical bytes outside the counter, constant counter offset; sanitizers and the signal/abort path catch crashes caused by leftover state. One history in four keeps the caller\'s packet objects (same addresses) across calls and edits them in place, so that anything the encoder remembers about a packet object is compared with a fresh encoder fed fresh objects.',
+        level_text='Exploration: after every encode call of every generated history (mixed contexts, message types, batches ending with segmented packets, empty batches, config changes) (histories also contain calls that leave encode() by an exception - a failing input iterator, an unallocatable maximum - and continuations on copies of the encoder) the frames are compared with those of a fresh encoder with the same ids: same count, identical bytes outside the counter, constant counter offset; sanitizers and the signal/abort path catch crashes caused by leftover state. One history in four keeps the caller\'s packet objects (same addresses) across calls and edits them in place, so that anything the encoder remembers about a packet object is compared with a fresh encoder fed fresh objects. Round 7: kept packet objects whose payload is replaced or re-typed between two encodes through the Payload reference obtained before the first one (no Packet member called).',
         level_note='Trusted: the fresh encoder run is itself checked by the C07/C08 oracles in the same execution.',
         stages=[codec_stage()],
         rule=('cases = encoder histories; after EVERY encode call the frames are compared with those of a fresh encoder (same ids) for the same batch: equal '
@@ -76,7 +76,7 @@ PROPS = {
               'history; distinct = distinct hash of (last message type of the previous call, first type of this call, previous call ended with a '
               'segmented packet?, this call needs segmentation?, batch shape signature).'),
         assumptions=COMMON_ASSUME,
-        floors=dict(quick={'distinct_nontrivial': 1000, 'feat:c10_transition': 12, 'encode_calls_left_by_exception': 500}, thorough={'distinct_nontrivial': 20000, 'feat:c10_transition': 16}),
+        floors=dict(quick={'kept_packets_whose_payload_was_replaced_or_retyped_through_an_earlier_reference': 2000, 'distinct_nontrivial': 1000, 'feat:c10_transition': 12, 'encode_calls_left_by_exception': 500}, thorough={'distinct_nontrivial': 20000, 'feat:c10_transition': 16}),
     ),
 
     'C04': dict(
@@ -93,13 +93,13 @@ PROPS = {
     ),
     'C05': dict(
         technique='ASan+UBSan run of multi-endpoint interleaved segment streams; per-call delivery oracle computed from the generation script (exactly-once, at the last segment, content by unique ids)',
-        level_text='Exploration: 1..4 endpoint streams of well-formed segmented (2..12 segments, sizes 0..max, unequal) and unsegmented messages with unique content are merged (all 20 merges x 36 starting-counter pairs exhaustively, bursty random merges otherwise), starting counters include 65533..65535, distinctive non-zero trailing bytes follow segments; deterministic extremes: reassembled totals 65519..65535, messages in 300 / 5000 / 65535 segments, 257 / 300 / 700 endpoints mid-message at once, 70 000 / 140 000 foreign frames between two segments, decoder continued on copies of itself; after EVERY decode call the delivered packets must be exactly the messages that complete at that frame, with the first segment\'s header fields. One message in five carries behind every segment a train of well-formed look-alike messages at a stride that matches its segment sizes; a copy of the decoder taken mid-history is fed the same frames next to the original and must deliver the same packets. Deterministic histories with one huge last / middle segment followed by trailing bytes such that declared length + trailing bytes pass 65536.',
+        level_text='Exploration: 1..4 endpoint streams of well-formed segmented (2..12 segments, sizes 0..max, unequal) and unsegmented messages with unique content are merged (all 20 merges x 36 starting-counter pairs exhaustively, bursty random merges otherwise), starting counters include 65533..65535, distinctive non-zero trailing bytes follow segments; deterministic extremes: reassembled totals 65519..65535, messages in 300 / 5000 / 65535 segments, 257 / 300 / 700 endpoints mid-message at once, 70 000 / 140 000 foreign frames between two segments, decoder continued on copies of itself; after EVERY decode call the delivered packets must be exactly the messages that complete at that frame, with the first segment\'s header fields. One message in five carries behind every segment a train of well-formed look-alike messages at a stride that matches its segment sizes; a copy of the decoder taken mid-history is fed the same frames next to the original and must deliver the same packets. Deterministic histories with one huge last / middle segment followed by trailing bytes such that declared length + trailing bytes pass 65536. Round 7: one history with 70 000 endpoints mid-message at the same moment (device ids spread over the id space).',
         level_note='Trusted: generation script bookkeeping; wire model. Reassembled totals > 65535 bytes are outside the domain.',
         stages=[dict(driver='drv_decode', flavour='asan')],
         rule=('cases = interleaved multi-endpoint histories; every decode call is one evaluation. A history is non-trivial iff >= 2 reassemblies were open simultaneously; '
               'distinct = distinct hash of the interleaving (endpoint order + completions per frame). Extra counters: wrap_crossings, trailing_byte_cases, zero_length_segments.'),
         assumptions=COMMON_ASSUME,
-        floors=dict(quick=dict(distinct_nontrivial=2000, wrap_crossings=100, trailing_byte_cases=1000, zero_length_segments=1000, exhaustive_merges=720, reassembled_totals_at_top_of_range=24, trailing_trains_of_look_alike_messages=1000),
+        floors=dict(quick=dict(histories_with_70000_endpoints_mid_message=1, distinct_nontrivial=2000, wrap_crossings=100, trailing_byte_cases=1000, zero_length_segments=1000, exhaustive_merges=720, reassembled_totals_at_top_of_range=24, trailing_trains_of_look_alike_messages=1000),
                     thorough=dict(distinct_nontrivial=50000, wrap_crossings=1000, exhaustive_merges=720)),
     ),
     'C06': dict(
@@ -114,25 +114,25 @@ PROPS = {
     ),
     'C17': dict(
         technique='ASan+UBSan+LeakSanitizer run with an invariant hook on the decoder (pending reassemblies, guarded by ASAM_CMP_VERIF) compared with a reference reassembly model after every decode call',
-        level_text='Exploration with an exhaustive core: after EVERY decode call the hooked list of (device, stream, buffered bytes) must equal the set of endpoints the reference model holds open, with buffered bytes <= received segment bytes; all 59049 words of length 5 over a 9-letter frame alphabet (first/mid/last/unsegmented/invalid/wrong-version/wrong-counter/TECMP/runt) on one endpoint (all words of length 4 over two endpoints in thorough) and seeded random multi-endpoint histories. The invalid-message letter takes four forms (error flag, payload type 0, overrunning length, padding-only frame of 1..56 zero bytes); the TECMP letter includes truncated look-alikes (first byte 0, 8..27 bytes) that name the endpoint itself.',
+        level_text='Exploration with an exhaustive core: after EVERY decode call the hooked list of (device, stream, buffered bytes) must equal the set of endpoints the reference model holds open, with buffered bytes <= received segment bytes; all 59049 words of length 5 over a 9-letter frame alphabet (first/mid/last/unsegmented/invalid/wrong-version/wrong-counter/TECMP/runt) on one endpoint (all words of length 4 over two endpoints in thorough) and seeded random multi-endpoint histories. The invalid-message letter takes four forms (error flag, payload type 0, overrunning length, padding-only frame of 1..56 zero bytes); the TECMP letter includes truncated look-alikes (first byte 0, 8..27 bytes) that name the endpoint itself. Round 7: one history with 70 000 endpoints open at once (pending list walked every 4999th frame and at the turning points).',
         level_note='Trusted: ref_decoder.h (validated on > 1 M frames, see DESIGN.md 7), the hook (read-only, inline). Restricted to frame shapes on which the reassembly rules are unambiguous.',
         stages=[dict(driver='drv_decode', flavour='asan'),
                 dict(driver='drv_alloc', flavour='plain0')],
         rule=('cases = frame histories; every decode call is one evaluation (one comparison of the hooked pending list with the model); the second stage (drv_alloc, counting operator new/delete, no hook) adds release-after-destruction histories and long growth runs over ever-new endpoints. distinct_nontrivial = distinct (pending-state signature = sorted (endpoint, segments received) of the open messages, last frame letter) pairs observed.'),
         assumptions=COMMON_ASSUME,
-        floors=dict(quick=dict(distinct_nontrivial=5000, exhaustive_words_len5_one_endpoint=59049, quiescent_points=10000, growth_runs=16, release_histories=2000),
+        floors=dict(quick=dict(histories_with_70000_open_endpoints=1, distinct_nontrivial=5000, exhaustive_words_len5_one_endpoint=59049, quiescent_points=10000, growth_runs=16, release_histories=2000),
                     thorough=dict(distinct_nontrivial=50000, exhaustive_words_len5_one_endpoint=59049, exhaustive_words_len4_two_endpoints=104976)),
         coverage_static=dict(quick=dict(exhaustive_subspaces=['all 9^5 frame-letter words on one endpoint']),
                              thorough=dict(exhaustive_subspaces=['all 9^5 frame-letter words on one endpoint', 'all 18^4 words over two endpoints'])),
     ),
     'C18': dict(
         technique='ASan+UBSan metamorphic monitor: one decoder fed the whole history versus fresh decoders fed each endpoint\'s projection, compared packet by packet',
-        level_text='Exploration: histories over 2..5 endpoints from a small id alphabet, dense in segment traffic, with 25% structurally mutated frames, TECMP frames, runts and re-addressed copies sprinkled in; all 20 merges of two 3-frame scripts for 400 script/endpoint-pair combinations are enumerated. For every endpoint the snapshot sequence from the mixed run must equal the run on its projection. Hostile frames include truncated TECMP look-alikes (first byte 0, 8..27 bytes) that would name a live endpoint if misread as CMP; endpoint sets include pairs whose decimal digit strings coincide.',
+        level_text='Exploration: histories over 2..5 endpoints from a small id alphabet, dense in segment traffic, with 25% structurally mutated frames, TECMP frames, runts and re-addressed copies sprinkled in; all 20 merges of two 3-frame scripts for 400 script/endpoint-pair combinations are enumerated. For every endpoint the snapshot sequence from the mixed run must equal the run on its projection. Hostile frames include truncated TECMP look-alikes (first byte 0, 8..27 bytes) that would name a live endpoint if misread as CMP; endpoint sets include pairs whose decimal digit strings coincide. Round 7: three histories with 1100, 4200 and 70 000 endpoints mid-message at the same moment, finished or aborted in another order and compared with as many single-endpoint decoders.',
         level_note='Trusted: attribution of a frame to an endpoint by its header bytes (independent parse). Needs no reference decision on malformed frames.',
         stages=[dict(driver='drv_decode', flavour='asan')],
         rule=('cases = histories; non-trivial iff >= 2 endpoints had an open reassembly at the same time (a foreign frame arrived in between); distinct = distinct hash of the interleaving incl. mutation kinds.'),
         assumptions=COMMON_ASSUME,
-        floors=dict(quick=dict(distinct_nontrivial=2000, exhaustive_merges=8000, projections_compared=20000, histories_with_a_gap_of_more_than_65536_foreign_frames=6),
+        floors=dict(quick=dict(histories_with_70000_endpoints_open_at_once=1, histories_with_thousands_of_endpoints_open_at_once=2, distinct_nontrivial=2000, exhaustive_merges=8000, projections_compared=20000, histories_with_a_gap_of_more_than_65536_foreign_frames=6),
                     thorough=dict(distinct_nontrivial=50000, exhaustive_merges=8000)),
     ),
 
@@ -161,12 +161,12 @@ PROPS = {
 
     'C11': dict(
         technique='ASan+UBSan run of every public setter against a shadow bit-image of the object (table of offset/width/mask per field): read-back, all other getters, all other raw bits',
-        level_text='Exploration, exhaustive for small fields: for 20 header/payload classes and 175 fields, every setter is called from default / all-zero / all-ones / random prior states with every in-range value (<= 8 bit exhaustive; <= 16 bit exhaustive in thorough) and in random set/clear sequences; after each call the value must read back, every other getter must equal the extract of the shadow image and no raw bit outside the field may change. Overlapping views (flags word vs single flags, id word, crc word, LIN pid) are judged through the shared shadow word. TECMP::Payload / TECMP::PayloadType type setters and TECMP::LinPayload::setData are part of the tables. A fixed builder sequence (every CAN / CAN-FD length 0..64, one object of every other class, raw packet headers) is additionally run during static initialisation, inside main() and in an atexit handler; the results must agree.',
+        level_text='Exploration, exhaustive for small fields: for 20 header/payload classes and 175 fields, every setter is called from default / all-zero / all-ones / random prior states with every in-range value (<= 8 bit exhaustive; <= 16 bit exhaustive in thorough) and in random set/clear sequences; after each call the value must read back, every other getter must equal the extract of the shadow image and no raw bit outside the field may change. Overlapping views (flags word vs single flags, id word, crc word, LIN pid) are judged through the shared shadow word. TECMP::Payload / TECMP::PayloadType type setters and TECMP::LinPayload::setData are part of the tables. A fixed builder sequence (every CAN / CAN-FD length 0..64, one object of every other class, raw packet headers) is additionally run during static initialisation, inside main() and in an atexit handler; the results must agree. Round 7: the run-time type tag of typed payload objects is changed through the Payload base (setRawPayloadType / setMessageType / setType, arbitrary values) between the field setters of a sequence and before every fourth single-setter case: no byte and no typed getter may change and every later setter is judged by the static class.',
         level_note='Trusted: field table in harness/common/fields.h (offset, width, mask written from the protocol layout). Packet / PayloadType have no wire image: a virtual image serialised from their getters is used.',
         stages=[dict(driver='drv_fields', flavour='asan')],
         rule='cases = (class, field, background) with every in-range value written (exhaustive for fields <= 8 bits, for <= 16 bits a 600-value lattice in quick and exhaustive in thorough, boundary + walking bits + 64 random for wider fields, special and random finite values for floats) + random sequences of 8..64 setter calls on one object; every setter call is one evaluation. distinct_nontrivial = distinct (class, field, background in {default, all-zero, all-ones, random}, value class in {0, max, single-bit, other}) tuples.',
         assumptions=COMMON_ASSUME,
-        floors=dict(quick={'distinct_nontrivial': 2000, 'feat:fields_exercised': 175, 'setter_sequences': 3000}, thorough={'distinct_nontrivial': 2000, 'feat:fields_exercised': 175}),
+        floors=dict(quick={'type_tag_changes_inside_setter_sequences': 2000, 'setter_calls_on_objects_with_a_changed_type_tag': 3000, 'distinct_nontrivial': 2000, 'feat:fields_exercised': 175, 'setter_sequences': 3000}, thorough={'distinct_nontrivial': 2000, 'feat:fields_exercised': 175}),
     ),
     'C12': dict(
         technique='ASan+UBSan run comparing API writes and getter reads with an independent layout table (byte offset, width, bit mask, big-endian) on raw object images; header sizes and reserved bits of default objects',
@@ -198,13 +198,13 @@ PROPS = {
 
     'C15': dict(
         technique='ASan+UBSan run of Decoder::decode and TECMP::Decoder::Decode on wire-model TECMP frames; packets compared with an independent TECMP parse; unsupported / non-fitting messages must yield nothing',
-        level_text='Exploration with exhaustive type sweeps: all 256 message types x 10 data types x 3 bodies, all 65536 data types on a data message, CAN 0..8 / CAN-FD 0..64 / LIN 0..8 data bytes x 0..3 CRC / checksum bytes x inner length byte fits -1/0/+1/+2/+200, bus status 0..40 entries (with incomplete tails, declared length +1 / 0), capture module status cut at every length, plus seeded random frames with arbitrary header fields; through both entry points. Expected packets come from an independent big-endian parse. A fixed set of 60 frames is decoded before main() and again inside a case; a quarter of the random cases run under a global C++ locale with digit grouping and a decimal comma.',
+        level_text='Exploration with exhaustive type sweeps: all 256 message types x 10 data types x 3 bodies, all 65536 data types on a data message, CAN 0..8 / CAN-FD 0..64 / LIN 0..8 data bytes x 0..3 CRC / checksum bytes x inner length byte fits -1/0/+1/+2/+200, bus status 0..40 entries (with incomplete tails, declared length +1 / 0), capture module status cut at every length, plus seeded random frames with arbitrary header fields; through both entry points. Expected packets come from an independent big-endian parse. A fixed set of 60 frames is decoded before main() and again inside a case; a quarter of the random cases run under a global C++ locale with digit grouping and a decimal comma. Round 7: all 65536 data-type values on both status kinds (every value except 0x00FF / 0xFF00 must convert); half of the random frames are followed directly by near-duplicates (one payload byte flipped, everything behind payload byte 12 renewed, one header field changed) and by the original again, each judged on its own.',
         level_note='Trusted: TECMP layout in wire.h (device id = byte 1 as the library defines its 28-byte header; chassis/silicon temperature offsets corroborated only by the captured frame in the repository tests). Leniencies: class CAN vs CAN-FD not compared; status messages with non-zero data type, data lengths beyond the bus limit and incomplete trailing bus entries run under the weaker oracle "nothing or correct"; bytes beyond 28 + payload length run under the safety oracle only.',
         stages=[dict(driver='drv_tecmp', flavour='asan'),
                 dict(driver='fuzz_tecmp', flavour='fuzz', runner='fuzz', tiers=('thorough',), runs=dict(thorough=16000000), max_len=600)],
         rule='cases = TECMP frames; each frame through each of the two entry points is one evaluation; distinct_nontrivial = distinct (family, message type, data type, length class, CRC bytes, inner length delta) signatures.',
         assumptions=COMMON_ASSUME,
-        floors=dict(quick=dict(distinct_nontrivial=60000, converted_and_compared=50000, expected_no_packet=50000, data_types_swept=65536, message_types_swept=256),
+        floors=dict(quick=dict(data_types_swept_on_status_messages=65536, near_duplicates_behind_their_original=50000, distinct_nontrivial=60000, converted_and_compared=50000, expected_no_packet=50000, data_types_swept=65536, message_types_swept=256),
                     thorough=dict(distinct_nontrivial=60000, data_types_swept=65536, message_types_swept=256)),
     ),
 
